@@ -144,6 +144,9 @@ class BaseColumnEnsembleClassifier(BaseClassifier, _HeterogenousMetaEstimator):
                 " tuples"
             )
 
+        # fit from the estimators as currently configured, not from a previous fit
+        self._is_fitted = False
+
         # X = _check_X(X)
         self._validate_estimators()
         self._validate_column_callables(X)
